@@ -27,6 +27,20 @@ def _rename_callee(d, body_pred, old, new, key="callee", limit=1):
     return n
 
 
+def _rename_any(d, body_pred, new):
+    """Rename the first resolved call of a body, whatever it calls (the positive example must not depend on how the body is written)."""
+    for b in d["hir"]:
+        if not body_pred(b["def"]):
+            continue
+        for x in walk(b["body"]):
+            if x.get("k") in ("mcall", "call") and x.get("callee") and not x.get("ctor"):
+                x["callee"] = new
+                if x.get("k") == "mcall":
+                    x["name"] = new.split("::")[-1]
+                return 1
+    return 0
+
+
 def _scratch():
     r = Run("SELF", "quick", "other")
     r.known = {}
@@ -43,10 +57,12 @@ def cases():
     from . import readerrules as rr
 
     def be(d):
-        return _rename_callee(d, lambda p: p == "ipp::IppHeader::to_bytes", "bytes::BufMut::put_u16", "bytes::BufMut::put_u16_le")
+        return _rename_callee(d, lambda p: p == "ipp::IppHeader::to_bytes", "bytes::BufMut::put_u16", "bytes::BufMut::put_u16_le") or \
+            _rename_callee(d, lambda p: p.startswith("ipp::") and "::tests::" not in p, "bytes::BufMut::put_u16", "bytes::BufMut::put_u16_le")
 
     def forbidden_io(d):
-        return _rename_callee(d, lambda p: p == "ipp::reader::IppReader::<R>::read_u8", "std::io::Read::read_exact", "std::io::Read::read")
+        return _rename_callee(d, lambda p: p == "ipp::reader::IppReader::<R>::read_u8", "std::io::Read::read_exact", "std::io::Read::read") or \
+            _rename_callee(d, lambda p: p.startswith("ipp::reader::IppReader::") and "::tests::" not in p, "std::io::Read::read_exact", "std::io::Read::read")
 
     def strict_utf8(d):
         return _rename_callee(d, lambda p: p.startswith(("ipp::value::", "ipp::reader::")) and "::tests::" not in p, "std::string::String::from_utf8_lossy", "std::string::String::from_utf8")
@@ -81,7 +97,8 @@ def cases():
         return 1
 
     def explicit_panic(d):
-        return _rename_callee(d, lambda p: p == "ipp::parser::list_or_value", "std::vec::Vec::<T, A>::len", "core::panicking::panic")
+        return _rename_callee(d, lambda p: p == "ipp::parser::list_or_value", "std::vec::Vec::<T, A>::len", "core::panicking::panic") or \
+            _rename_any(d, lambda p: p == "ipp::parser::list_or_value", "core::panicking::panic")
 
     def rule_be(run, F):
         cr.r_be(run, F)
